@@ -331,6 +331,12 @@ def mc_scenarios(thorough):
           M(sends=[[R(1)], [R(2)]], writes=[[2, 1], [1]], ops=[SEND, SEND], rfaults=["ok", "hard"], lookahead=1), None),
          ("recv reports a disconnect errno with a request queued, la=1", "C13",
           M(sends=[[R(1)], [R(2)]], writes=[[2, 1], [1]], ops=[SEND, SEND], rfaults=["ok", "disc"], lookahead=1), None),
+         ("the send of the deferred interim response fails with an errno reported to the caller, la=1", "C13 C19",
+          M(sends=[[R(1), R(2, w="head")], [R(2, w="body")]], writes=W2, ops=[SEND, AW(1), SEND], lookahead=1, sfaults=["ok", "hard"]), None),
+         ("the interim response sent on receipt fails with a disconnect errno, la=0", "C13 C19",
+          M(sends=[[R(1, w="head")], [R(1, w="body")]], writes=W2, ops=[SEND, AW(1), SEND], sfaults=["disc"]), None),
+         ("poll2: second recv fails while the first request runs and output is pending, la=1", "C13 C05",
+          M(sends=[[R(1)], [R(2)]], writes=[[2, 1], [1]], ops=[SEND, SEND, O("read", -1, 1)], rfaults=["ok", "hard"], lookahead=1, room=0, usepoll=True), None),
          ("producer above the mark, lookahead=1, client goes away (seen by recv)", "C13 C12",
           M(sends=[[R(1)]], writes=[[2, 2, 2]], ops=[SEND, O("close")], room=0, hwm=1, lookahead=1), None)]
     # quick variants are also checked for the liveness property ComesToRest (fair scheduling); the larger ones for safety only
